@@ -341,6 +341,9 @@ def check_stop(case):
         if case["compute_residuals"]:
             pen = penrose(A, X)
             scl = {"AXA-A": inf["fro"], "XAX-X": ref.fro(X), "AX-herm": 1.0, "XA-herm": 1.0}
+            lens = {key: len(residuals.get(key, [])) for key in pen}
+            out.true(site + ":all residual histories have one entry per sweep (tolerance exit)",
+                     all(v == n_it for v in lens.values()), f"{lens} for {n_it} sweeps")
             for key, val in pen.items():
                 if len(residuals.get(key, [])) == n_it:
                     rep = float(residuals[key][n_it - 1])
